@@ -78,6 +78,27 @@ func C09(c *core.Ctx) error {
 		add("listed interface does not exist"+at, true, func(root core.M, pcs, ics []core.M, files map[string]string, s *c09scn) {
 			pkgs(root)[P(pk[pos])].(core.M)["interfaces"].(core.M)["Missing"] = core.M{}
 		})
+		// the same fault under every way the package's interfaces may be selected besides listing them: a listed
+		// name that is not in the source is an error however the rest of the package is selected
+		for _, sel := range []string{"all at package level", "all at top level", "include-interface-regex at package level", "recursive + all at package level", "all at top level switched off at package level"} {
+			sel := sel
+			add("listed interface does not exist, "+sel+at, true, func(root core.M, pcs, ics []core.M, files map[string]string, s *c09scn) {
+				pkgs(root)[P(pk[pos])].(core.M)["interfaces"].(core.M)["Missing"] = core.M{"config": core.M{"structname": "MissingDouble"}}
+				switch sel {
+				case "all at package level":
+					pcs[pos]["all"] = true
+				case "all at top level":
+					root["all"] = true
+				case "include-interface-regex at package level":
+					pcs[pos]["include-interface-regex"] = "I.*"
+				case "recursive + all at package level":
+					pcs[pos]["all"], pcs[pos]["recursive"] = true, true
+				case "all at top level switched off at package level":
+					root["all"] = true
+					pcs[pos]["all"] = false
+				}
+			})
+		}
 		add("configured package path does not exist"+at, true, func(root core.M, pcs, ics []core.M, files map[string]string, s *c09scn) {
 			delete(files, pk[pos]+"/"+pk[pos]+".go")
 		})
@@ -349,6 +370,6 @@ func C09(c *core.Ctx) error {
 	c.Ev.Set("outcome_classes", classes)
 	c.Ev.Set("cases", len(scns))
 	c.Ev.Set("exhaustive", done == len(scns)*2)
-	c.Ev.Set("rule", "a valid 3-package configuration is perturbed by one fault at a time, the fault placed in each of the three packages and, where it can be written there, at package and interface level: missing listed interface, missing package, type/syntax error, unknown template/formatter/key, unreadable / unparsable / failing template, schema-rejected template-data, cyclic and malformed templated values, invalid regexes, output the formatter rejects, output path occupied, existing file without force, conflicting mocks for one file (different source packages incl. same-named ones, pkgname, template), root-level and config-file-level faults; plus valid-but-unusual inputs (local types, build tags, test-only files, empty / non-Go / test-only / nested-module directories under a recursive root, YAML-hostile interface names, go.mod spellings). Every scenario runs under the sorted and the reversed map iteration order (instrumented binary). Invalid => non-zero exit with a diagnostic; valid => exit 0 and exactly the configured mocks; never a panic trace; distinct_nontrivial = invalid scenarios rejected")
+	c.Ev.Set("rule", "a valid 3-package configuration is perturbed by one fault at a time, the fault placed in each of the three packages and, where it can be written there, at package and interface level: missing listed interface (alone and with the package's interfaces selected through all / include-interface-regex / recursive at package or top level), missing package, type/syntax error, unknown template/formatter/key, unreadable / unparsable / failing template, schema-rejected template-data, cyclic and malformed templated values, invalid regexes, output the formatter rejects, output path occupied, existing file without force, conflicting mocks for one file (different source packages incl. same-named ones, pkgname, template), root-level and config-file-level faults; plus valid-but-unusual inputs (local types, build tags, test-only files, empty / non-Go / test-only / nested-module directories under a recursive root, YAML-hostile interface names, go.mod spellings). Every scenario runs under the sorted and the reversed map iteration order (instrumented binary). Invalid => non-zero exit with a diagnostic; valid => exit 0 and exactly the configured mocks; never a panic trace; distinct_nontrivial = invalid scenarios rejected")
 	return nil
 }
